@@ -101,6 +101,20 @@ def _case(draw, tier):
                 extra = draw(st.lists(st.sampled_from(top_names + ["END"]), max_size=2))
                 targets = list(dict.fromkeys([t, f] + extra))
                 gates.append({"k": "route", "name": f"gt{gi}", "params": params, "defaults": {}, "targets": targets, "fallback": None, "multi": draw(st.booleans()), "table": [None]})
+    # a gate that also EMITS an ordering signal, with a non-target waiter (preferably one sharing an input with the gate)
+    for g_ in gates:
+        if prob(draw, 0.3):
+            tg = {g_.get("t"), g_.get("f"), *g_.get("targets", [])}
+            cands = [n for n in nodes if n["k"] == "func" and n["name"] not in tg and not n.get("wait_for") and not n.get("emit")]
+            shared = [n for n in cands if set(n["params"]) & set(g_["params"])]
+            if cands:
+                w = draw(st.sampled_from(shared or cands))
+                sig = "gsig_" + g_["name"]
+                g_["emit"] = [sig]
+                for coll in (nodes, topo):
+                    for n in coll:
+                        if n.get("name") == w["name"] and n["k"] == "func":
+                            n["wait_for"] = list(n.get("wait_for", [])) + [sig]
     mutex = None
     if depth == 0 and not gates and prob(draw, 0.25):
         mutex = {"param": draw(st.sampled_from(sorted({p for n in topo for p in n["params"]}) or ["zz"]))}
@@ -171,6 +185,10 @@ def _deps(case, leaf_path, tree):
 
     for prefix, g in gates_of(case["nodes"], ""):
         gid = prefix + g["name"]
+        for sig in g.get("emit", []):
+            for n in topo:
+                if sig in n.get("wait_for", []):
+                    deps.append(("ordering", gid, leaf_path[n["name"]], sig))
         ts = [g["t"], g["f"]] if g["k"] == "ifelse" else g["targets"]
         for t in dict.fromkeys(ts):
             deps.append(("control", gid, "__end__" if t == "END" else prefix + t, ""))
